@@ -6,6 +6,7 @@ CONSTANTS
  HashSession = TRUE
  HashId = TRUE
  DedupMode = "peer+id"
+ AllowRelay = TRUE
  MCCfgs <- Cfg4two
  Bodies = {x, y}
  MaxFSig = 99
